@@ -275,7 +275,7 @@ def check(ctx):
 META = {
     "technique": "static analysis: who-may-write the variable store + CFG must-pass-through to the memo invalidation, alias-escape rule for the memoised mapping, contradiction rule over the Var/ENSURERS registry, guard dominance in detype",
     "text": "Decides the cache discipline and the registry pairing that the property rests on, for all histories of "
-    "set/delete/swap: every statement in Env that mutates the store (8 kinds of site) reaches `self._detyped = None` "
+    "set/delete/swap: every statement in Env (and in every other class of environ.py that memoises `_detyped`, e.g. LsColors) that mutates the store (8 kinds of site) reaches `self._detyped = None` "
     "on every normal path (callable-default materialisation and the thread-local view installation are allow-listed "
     "with the reason checked structurally); the escape of a mutable stored value while the memo is trusted is "
     "reported (known finding); each of the ~35 explicitly registered (validate, convert, detype) triples pairs the "
